@@ -94,7 +94,7 @@ def set_table_hostile(sf, t, rng, ctx=None):
         sf.set_semantic_constraints(passed)
     if rng.random() < 0.15:
         # a rejected update right after the accepted one (valid, different entries first, then one bad entry)
-        bad, _ = invalid_update(rng)
+        bad, _ = invalid_update(rng, current=sf.get_semantic_constraints())
         try:
             sf.set_semantic_constraints(bad)
         except Exception:       # noqa - which exception, and atomicity, are C12's business; here it must simply not matter
@@ -127,8 +127,31 @@ def set_table_hostile(sf, t, rng, ctx=None):
     return reported
 
 
-def invalid_update(rng):
-    """(value, reason) - an update the library must reject."""
+def invalid_update(rng, current=None):
+    """(value, reason) - an update the library must reject.  With `current` (the table in force) a share of the updates
+    follow the usual get -> tweak -> set round trip, the tweak being the invalid part."""
+    if current and rng.random() < 0.3:
+        import decimal
+        import fractions
+        d = dict(current)
+        k = rng.choice(sorted(d))
+        x = rng.random()
+        if x < 0.5:
+            # same number, not an integer: 4.0 == 4, Fraction(4) == 4, ... compare equal to the entry in force
+            v = d[k]
+            d[k] = rng.choice([float(v), fractions.Fraction(v), decimal.Decimal(v), complex(v, 0), str(v)])
+            return d, "entry in force re-sent as %s" % type(d[k]).__name__
+        if x < 0.65:
+            d[k] = -1 - d[k]
+            return d, "entry in force made negative"
+        if x < 0.8:
+            d.pop("?")
+            return d, "table in force without ?"
+        if x < 0.9:
+            d[k + rng.choice(["\n", " ", "+", "+0"])] = d[k]
+            return d, "table in force plus malformed twin key"
+        d[k] = None
+        return d, "entry in force set to None"
     if rng.random() < 0.4:
         # a valid random table (new, unusual keys first) with one bad entry somewhere after them
         t = random_table(rng, nkeys=rng.randint(1, 5), q=rng.choice([1, 3, 5, 8]))
